@@ -3,7 +3,7 @@
    and nothing else. *)
 From AK Require Import Base.Prelude Base.Sx Bytes.Text Bytes.FabHeader Bytes.BinFile
   Reader.Select Reader.BoxRead Reader.Level Plotfile.TextHeader Taste.Taste Writers.Colander Writers.Combine Writers.Chef Writers.Chk2plt
-  Array.Paint Mandoline.Plate Mandoline.Slice3D Whip.Whip Pestle.Pestle Point.PointQuery.
+  Array.Paint Mandoline.Plate Mandoline.Slice3D Whip.Whip Pestle.Pestle Point.PointQuery Menu.Menu.
 
 Definition as_Zs := as_list as_Z.
 Definition as_optZ := as_opt as_Z.
@@ -424,6 +424,30 @@ Definition e_slice3d (s : sx) : sx :=
   | _ => bad_request
   end.
 
+(* ---- C18: menu ----
+   request: (fields classes finest mins maxs) with classes = per field () or (class key);
+   mins / maxs = per field, per level, the list of per-box values (8-byte words);
+   result: (listing species ((min max) per field) rows) *)
+Definition e_menu (s : sx) : sx :=
+  match s with
+  | SL [fields; classes; finest; mins; maxs] =>
+      req (do fields <- as_Bs fields; do classes <- as_list (as_opt as_B) classes; do finest <- as_bool finest;
+           do mins <- as_list (as_list as_Bs) mins; do maxs <- as_list (as_list as_Bs) maxs;
+           Some (fields, classes, finest, mins, maxs))
+          (fun '(fields, classes, finest, mins, maxs) =>
+             let tbl := combine fields classes in
+             let classify := fun f => match find (fun fc => bytes_eqb (fst fc) f) tbl with
+                                      | Some (_, c) => c | None => None end in
+             ok (SL [of_list SB (variables_finder classify fields []);
+                     of_list SB (species_finder fields);
+                     of_list (fun mm => SL [SB (field_min finest (fst mm)); SB (field_max finest (snd mm))]) (combine mins maxs);
+                     of_list (fun r => SL [SZ (Z.of_nat (fst r)); SZ (Z.of_nat (snd r))]) (table_rows (length fields))]))
+  | _ => bad_request
+  end.
+
+Definition e_minuterie (s : sx) : sx :=
+  req (as_text s) (fun t => of_result SB (minuterie t)).
+
 Definition entries : list (string * (sx -> sx)) :=
   [ ("getitem", e_getitem);
     ("iter_all", e_iter_all);
@@ -448,7 +472,9 @@ Definition entries : list (string * (sx -> sx)) :=
     ("combine", e_combine);
     ("chef", e_chef);
     ("chk2plt_level", e_chk2plt_level);
-    ("slice3d", e_slice3d)
+    ("slice3d", e_slice3d);
+    ("menu", e_menu);
+    ("minuterie", e_minuterie)
   ]%string.
 
 Fixpoint find_entry (name : string) (l : list (string * (sx -> sx))) : option (sx -> sx) :=
